@@ -75,65 +75,260 @@ def _backup(what, s0, s1, s2, s3, s4, wal, ta, tp, tc, td, cl, again):
 
 
 
-def backup_sched_nowal_keep(s0: int, ta: int, tp: int, tc: int, td: int) -> bool:
+def backup_sched_nowal_keep_a5_d5(s0: int, tp: int, tc: int) -> bool:
     """
     Instants on the backup clock: 5 = before the loose copy, 6 = index dump, 7 = dump transfer, 8 = packs copy,
     9 = copy of the rest, 10 = rename of live-backup, 11 = after the backup.
-    pre: 1 <= s0 <= 70000
-    pre: 5 <= ta <= 11 and 5 <= tp <= 11 and tp <= tc <= 11 and 5 <= td <= 11
+    pre: 1 <= s0 <= 70000 and 5 <= tp <= 11 and tp <= tc <= 11
     post: _
     """
-    return _backup('check', s0, 7, 5, 3, 9, False, ta, tp, tc, td, False, False)
+    return _backup('check', s0, 7, 5, 3, 9, False, 5, tp, tc, 5, False, False)
 
 
-def backup_sched_nowal_clean(s0: int, ta: int, tp: int, tc: int, td: int) -> bool:
+def backup_sched_nowal_keep_a5_d9(s0: int, tp: int, tc: int) -> bool:
     """
     Instants on the backup clock: 5 = before the loose copy, 6 = index dump, 7 = dump transfer, 8 = packs copy,
     9 = copy of the rest, 10 = rename of live-backup, 11 = after the backup.
-    pre: 1 <= s0 <= 70000
-    pre: 5 <= ta <= 11 and 5 <= tp <= 11 and tp <= tc <= 11 and 5 <= td <= 11
+    pre: 1 <= s0 <= 70000 and 5 <= tp <= 11 and tp <= tc <= 11
     post: _
     """
-    return _backup('check', s0, 7, 5, 3, 9, False, ta, tp, tc, td, True, False)
+    return _backup('check', s0, 7, 5, 3, 9, False, 5, tp, tc, 9, False, False)
 
 
-def backup_sched_wal_keep(s0: int, ta: int, tp: int, tc: int, td: int) -> bool:
+def backup_sched_nowal_keep_a5_d11(s0: int, tp: int, tc: int) -> bool:
     """
     Instants on the backup clock: 5 = before the loose copy, 6 = index dump, 7 = dump transfer, 8 = packs copy,
     9 = copy of the rest, 10 = rename of live-backup, 11 = after the backup.
-    pre: 1 <= s0 <= 70000
-    pre: 5 <= ta <= 11 and 5 <= tp <= 11 and tp <= tc <= 11 and 5 <= td <= 11
+    pre: 1 <= s0 <= 70000 and 5 <= tp <= 11 and tp <= tc <= 11
     post: _
     """
-    return _backup('check', s0, 7, 5, 3, 9, True, ta, tp, tc, td, False, False)
+    return _backup('check', s0, 7, 5, 3, 9, False, 5, tp, tc, 11, False, False)
 
 
-def backup_sched_wal_clean(s0: int, ta: int, tp: int, tc: int, td: int) -> bool:
+def backup_sched_nowal_keep_a8_d5(s0: int, tp: int, tc: int) -> bool:
     """
     Instants on the backup clock: 5 = before the loose copy, 6 = index dump, 7 = dump transfer, 8 = packs copy,
     9 = copy of the rest, 10 = rename of live-backup, 11 = after the backup.
-    pre: 1 <= s0 <= 70000
-    pre: 5 <= ta <= 11 and 5 <= tp <= 11 and tp <= tc <= 11 and 5 <= td <= 11
+    pre: 1 <= s0 <= 70000 and 5 <= tp <= 11 and tp <= tc <= 11
     post: _
     """
-    return _backup('check', s0, 7, 5, 3, 9, True, ta, tp, tc, td, True, False)
+    return _backup('check', s0, 7, 5, 3, 9, False, 8, tp, tc, 5, False, False)
 
 
-def backup_again(s0: int, wal: bool, tp: int, tc: int, td: int, cl: bool) -> bool:
+def backup_sched_nowal_keep_a8_d9(s0: int, tp: int, tc: int) -> bool:
+    """
+    Instants on the backup clock: 5 = before the loose copy, 6 = index dump, 7 = dump transfer, 8 = packs copy,
+    9 = copy of the rest, 10 = rename of live-backup, 11 = after the backup.
+    pre: 1 <= s0 <= 70000 and 5 <= tp <= 11 and tp <= tc <= 11
+    post: _
+    """
+    return _backup('check', s0, 7, 5, 3, 9, False, 8, tp, tc, 9, False, False)
+
+
+def backup_sched_nowal_keep_a8_d11(s0: int, tp: int, tc: int) -> bool:
+    """
+    Instants on the backup clock: 5 = before the loose copy, 6 = index dump, 7 = dump transfer, 8 = packs copy,
+    9 = copy of the rest, 10 = rename of live-backup, 11 = after the backup.
+    pre: 1 <= s0 <= 70000 and 5 <= tp <= 11 and tp <= tc <= 11
+    post: _
+    """
+    return _backup('check', s0, 7, 5, 3, 9, False, 8, tp, tc, 11, False, False)
+
+
+def backup_sched_nowal_clean_a5_d5(s0: int, tp: int, tc: int) -> bool:
+    """
+    Instants on the backup clock: 5 = before the loose copy, 6 = index dump, 7 = dump transfer, 8 = packs copy,
+    9 = copy of the rest, 10 = rename of live-backup, 11 = after the backup.
+    pre: 1 <= s0 <= 70000 and 5 <= tp <= 11 and tp <= tc <= 11
+    post: _
+    """
+    return _backup('check', s0, 7, 5, 3, 9, False, 5, tp, tc, 5, True, False)
+
+
+def backup_sched_nowal_clean_a5_d9(s0: int, tp: int, tc: int) -> bool:
+    """
+    Instants on the backup clock: 5 = before the loose copy, 6 = index dump, 7 = dump transfer, 8 = packs copy,
+    9 = copy of the rest, 10 = rename of live-backup, 11 = after the backup.
+    pre: 1 <= s0 <= 70000 and 5 <= tp <= 11 and tp <= tc <= 11
+    post: _
+    """
+    return _backup('check', s0, 7, 5, 3, 9, False, 5, tp, tc, 9, True, False)
+
+
+def backup_sched_nowal_clean_a5_d11(s0: int, tp: int, tc: int) -> bool:
+    """
+    Instants on the backup clock: 5 = before the loose copy, 6 = index dump, 7 = dump transfer, 8 = packs copy,
+    9 = copy of the rest, 10 = rename of live-backup, 11 = after the backup.
+    pre: 1 <= s0 <= 70000 and 5 <= tp <= 11 and tp <= tc <= 11
+    post: _
+    """
+    return _backup('check', s0, 7, 5, 3, 9, False, 5, tp, tc, 11, True, False)
+
+
+def backup_sched_nowal_clean_a8_d5(s0: int, tp: int, tc: int) -> bool:
+    """
+    Instants on the backup clock: 5 = before the loose copy, 6 = index dump, 7 = dump transfer, 8 = packs copy,
+    9 = copy of the rest, 10 = rename of live-backup, 11 = after the backup.
+    pre: 1 <= s0 <= 70000 and 5 <= tp <= 11 and tp <= tc <= 11
+    post: _
+    """
+    return _backup('check', s0, 7, 5, 3, 9, False, 8, tp, tc, 5, True, False)
+
+
+def backup_sched_nowal_clean_a8_d9(s0: int, tp: int, tc: int) -> bool:
+    """
+    Instants on the backup clock: 5 = before the loose copy, 6 = index dump, 7 = dump transfer, 8 = packs copy,
+    9 = copy of the rest, 10 = rename of live-backup, 11 = after the backup.
+    pre: 1 <= s0 <= 70000 and 5 <= tp <= 11 and tp <= tc <= 11
+    post: _
+    """
+    return _backup('check', s0, 7, 5, 3, 9, False, 8, tp, tc, 9, True, False)
+
+
+def backup_sched_nowal_clean_a8_d11(s0: int, tp: int, tc: int) -> bool:
+    """
+    Instants on the backup clock: 5 = before the loose copy, 6 = index dump, 7 = dump transfer, 8 = packs copy,
+    9 = copy of the rest, 10 = rename of live-backup, 11 = after the backup.
+    pre: 1 <= s0 <= 70000 and 5 <= tp <= 11 and tp <= tc <= 11
+    post: _
+    """
+    return _backup('check', s0, 7, 5, 3, 9, False, 8, tp, tc, 11, True, False)
+
+
+def backup_sched_wal_keep_a5_d5(s0: int, tp: int, tc: int) -> bool:
+    """
+    Instants on the backup clock: 5 = before the loose copy, 6 = index dump, 7 = dump transfer, 8 = packs copy,
+    9 = copy of the rest, 10 = rename of live-backup, 11 = after the backup.
+    pre: 1 <= s0 <= 70000 and 5 <= tp <= 11 and tp <= tc <= 11
+    post: _
+    """
+    return _backup('check', s0, 7, 5, 3, 9, True, 5, tp, tc, 5, False, False)
+
+
+def backup_sched_wal_keep_a5_d9(s0: int, tp: int, tc: int) -> bool:
+    """
+    Instants on the backup clock: 5 = before the loose copy, 6 = index dump, 7 = dump transfer, 8 = packs copy,
+    9 = copy of the rest, 10 = rename of live-backup, 11 = after the backup.
+    pre: 1 <= s0 <= 70000 and 5 <= tp <= 11 and tp <= tc <= 11
+    post: _
+    """
+    return _backup('check', s0, 7, 5, 3, 9, True, 5, tp, tc, 9, False, False)
+
+
+def backup_sched_wal_keep_a5_d11(s0: int, tp: int, tc: int) -> bool:
+    """
+    Instants on the backup clock: 5 = before the loose copy, 6 = index dump, 7 = dump transfer, 8 = packs copy,
+    9 = copy of the rest, 10 = rename of live-backup, 11 = after the backup.
+    pre: 1 <= s0 <= 70000 and 5 <= tp <= 11 and tp <= tc <= 11
+    post: _
+    """
+    return _backup('check', s0, 7, 5, 3, 9, True, 5, tp, tc, 11, False, False)
+
+
+def backup_sched_wal_keep_a8_d5(s0: int, tp: int, tc: int) -> bool:
+    """
+    Instants on the backup clock: 5 = before the loose copy, 6 = index dump, 7 = dump transfer, 8 = packs copy,
+    9 = copy of the rest, 10 = rename of live-backup, 11 = after the backup.
+    pre: 1 <= s0 <= 70000 and 5 <= tp <= 11 and tp <= tc <= 11
+    post: _
+    """
+    return _backup('check', s0, 7, 5, 3, 9, True, 8, tp, tc, 5, False, False)
+
+
+def backup_sched_wal_keep_a8_d9(s0: int, tp: int, tc: int) -> bool:
+    """
+    Instants on the backup clock: 5 = before the loose copy, 6 = index dump, 7 = dump transfer, 8 = packs copy,
+    9 = copy of the rest, 10 = rename of live-backup, 11 = after the backup.
+    pre: 1 <= s0 <= 70000 and 5 <= tp <= 11 and tp <= tc <= 11
+    post: _
+    """
+    return _backup('check', s0, 7, 5, 3, 9, True, 8, tp, tc, 9, False, False)
+
+
+def backup_sched_wal_keep_a8_d11(s0: int, tp: int, tc: int) -> bool:
+    """
+    Instants on the backup clock: 5 = before the loose copy, 6 = index dump, 7 = dump transfer, 8 = packs copy,
+    9 = copy of the rest, 10 = rename of live-backup, 11 = after the backup.
+    pre: 1 <= s0 <= 70000 and 5 <= tp <= 11 and tp <= tc <= 11
+    post: _
+    """
+    return _backup('check', s0, 7, 5, 3, 9, True, 8, tp, tc, 11, False, False)
+
+
+def backup_sched_wal_clean_a5_d5(s0: int, tp: int, tc: int) -> bool:
+    """
+    Instants on the backup clock: 5 = before the loose copy, 6 = index dump, 7 = dump transfer, 8 = packs copy,
+    9 = copy of the rest, 10 = rename of live-backup, 11 = after the backup.
+    pre: 1 <= s0 <= 70000 and 5 <= tp <= 11 and tp <= tc <= 11
+    post: _
+    """
+    return _backup('check', s0, 7, 5, 3, 9, True, 5, tp, tc, 5, True, False)
+
+
+def backup_sched_wal_clean_a5_d9(s0: int, tp: int, tc: int) -> bool:
+    """
+    Instants on the backup clock: 5 = before the loose copy, 6 = index dump, 7 = dump transfer, 8 = packs copy,
+    9 = copy of the rest, 10 = rename of live-backup, 11 = after the backup.
+    pre: 1 <= s0 <= 70000 and 5 <= tp <= 11 and tp <= tc <= 11
+    post: _
+    """
+    return _backup('check', s0, 7, 5, 3, 9, True, 5, tp, tc, 9, True, False)
+
+
+def backup_sched_wal_clean_a5_d11(s0: int, tp: int, tc: int) -> bool:
+    """
+    Instants on the backup clock: 5 = before the loose copy, 6 = index dump, 7 = dump transfer, 8 = packs copy,
+    9 = copy of the rest, 10 = rename of live-backup, 11 = after the backup.
+    pre: 1 <= s0 <= 70000 and 5 <= tp <= 11 and tp <= tc <= 11
+    post: _
+    """
+    return _backup('check', s0, 7, 5, 3, 9, True, 5, tp, tc, 11, True, False)
+
+
+def backup_sched_wal_clean_a8_d5(s0: int, tp: int, tc: int) -> bool:
+    """
+    Instants on the backup clock: 5 = before the loose copy, 6 = index dump, 7 = dump transfer, 8 = packs copy,
+    9 = copy of the rest, 10 = rename of live-backup, 11 = after the backup.
+    pre: 1 <= s0 <= 70000 and 5 <= tp <= 11 and tp <= tc <= 11
+    post: _
+    """
+    return _backup('check', s0, 7, 5, 3, 9, True, 8, tp, tc, 5, True, False)
+
+
+def backup_sched_wal_clean_a8_d9(s0: int, tp: int, tc: int) -> bool:
+    """
+    Instants on the backup clock: 5 = before the loose copy, 6 = index dump, 7 = dump transfer, 8 = packs copy,
+    9 = copy of the rest, 10 = rename of live-backup, 11 = after the backup.
+    pre: 1 <= s0 <= 70000 and 5 <= tp <= 11 and tp <= tc <= 11
+    post: _
+    """
+    return _backup('check', s0, 7, 5, 3, 9, True, 8, tp, tc, 9, True, False)
+
+
+def backup_sched_wal_clean_a8_d11(s0: int, tp: int, tc: int) -> bool:
+    """
+    Instants on the backup clock: 5 = before the loose copy, 6 = index dump, 7 = dump transfer, 8 = packs copy,
+    9 = copy of the rest, 10 = rename of live-backup, 11 = after the backup.
+    pre: 1 <= s0 <= 70000 and 5 <= tp <= 11 and tp <= tc <= 11
+    post: _
+    """
+    return _backup('check', s0, 7, 5, 3, 9, True, 8, tp, tc, 11, True, False)
+
+
+def backup_again(s0: int, wal: bool, tp: int, tc: int, cl: bool) -> bool:
     """
     Two successive backups (the second one incremental, --link-dest on the first); events during the first.
     pre: 1 <= s0 <= 70000
-    pre: 5 <= tp <= 11 and tp <= tc <= 11 and 5 <= td <= 11
+    pre: 5 <= tp <= 11 and tp <= tc <= 11
     post: _
     """
-    return _backup('check', s0, 7, 5, 3, 9, wal, 5, tp, tc, td, cl, True)
+    return _backup('check', s0, 7, 5, 3, 9, wal, 5, tp, tc, 9, cl, True)
 
 
-def backup_reach(s0: int, wal: bool, ta: int, tp: int, tc: int, td: int, cl: bool) -> bool:
+def backup_reach(tp: int, tc: int) -> bool:
     """
     Reachability twin: must be REFUTED (a backup completes with pack + clean falling between its copy phases).
-    pre: 1 <= s0 <= 70000
-    pre: 5 <= ta <= 11 and 5 <= tp <= 11 and tp <= tc <= 11 and 5 <= td <= 11
+    pre: 5 <= tp <= 11 and tp <= tc <= 11
     post: _
     """
-    return _backup('reach', s0, 7, 5, 3, 9, wal, ta, tp, tc, td, cl, False)
+    return _backup('reach', 66000, 7, 5, 3, 9, False, 5, tp, tc, 11, True, False)
